@@ -524,6 +524,8 @@ def external(fr, dotted, args, kw, extra, n):
             return t
         if name in ('min', 'max', 'nanmin', 'nanmax', 'amin', 'amax') and a0 is not None:
             nm = {'amin': 'min', 'amax': 'max'}.get(name, name)
+            if a0[0] in ('list', 'tuple') and len(a0[1]) == 1 and len(args) == 1 and not kw and T.scalar_value(a0[1][0]):
+                return a0[1][0]                       # the extreme of one number
             if a0[0] in ('list', 'tuple'):
                 return ('call', nm, ((a0[0] and 'tuple', T.sort_terms(a0[1])),), tuple(sorted(kw.items())))
             return T.call(nm, args, kw)
